@@ -126,6 +126,8 @@ func gen(c *core.Ctx) error {
 		{{ss.Lit([]byte("only client speaks"))}, nil},
 		{nil, {ss.Lit([]byte("only server speaks")), ss.Lit([]byte("x"))}},
 		{nil, nil},
+		// cleartext frames larger than 4 KiB and 8 KiB (a large token or certificate in the negotiation)
+		{{ss.Lit([]byte("hello")), ss.Pay(3, 5000)}, {ss.Pay(9, 9001), ss.Lit([]byte("ok"))}},
 	}
 	for si, sh := range shapes {
 		mkN := 0
@@ -158,8 +160,19 @@ func gen(c *core.Ctx) error {
 				b := base[i].D.Bytes()
 				// every byte of the payload
 				for pos := range b {
-					if c.Quick() && si > 1 && pos%3 != 0 {
+					if c.Quick() && si > 1 && pos%3 != 0 && len(b) <= 200 {
 						continue
+					}
+					if len(b) > 200 { // large frames: the offsets around every 4 KiB boundary and both ends
+						near := pos < 2 || pos >= len(b)-2
+						for _, bd := range []int{1024, 4096, 8192} {
+							if pos >= bd-1 && pos <= bd+1 {
+								near = true
+							}
+						}
+						if !near {
+							continue
+						}
 					}
 					m := append([]byte(nil), b...)
 					m[pos] ^= 0x01
